@@ -1,20 +1,33 @@
 #!/usr/bin/env python3
 """Regenerate rules/known_fns.py from /repo's current tree (all feature configurations). Only to be run together
 with a review of the rule tables: a function listed there is treated as a unit the rules know about, anything else
-is inlined into its callers (rules/inline.py)."""
+is inlined into its callers (rules/inline.py); the fingerprints only serve to recognise private renames
+(rules/rename.py)."""
 import os, sys
 sys.path.insert(0, os.path.dirname(os.path.dirname(os.path.abspath(__file__))))
-from rules import facts
+from rules import facts, rename
 
 names = set()
+fps = {}
 for c, fb in facts.load_facts(list(facts.CONFIGS)).items():
+    d = {}
     for r in fb["fns"]:
         if r["kind"] in ("Fn", "AssocFn"):
             names.add(r["short"])
+            fp = rename.fingerprint(r)
+            if fp:
+                d[r["short"]] = fp
+    fps[c] = d
 out = os.path.join(os.path.dirname(os.path.dirname(os.path.abspath(__file__))), "rules", "known_fns.py")
 with open(out, "w") as fh:
-    fh.write('"""Functions (all feature configurations) that existed when the rule tables were reviewed. A private function\nthat is *not* listed here is a helper introduced later: rules/inline.py inlines it into its callers before any\nrule runs. Regenerate with tools/gen_known_fns.py only together with a review of the tables."""\n\nKNOWN_FNS = frozenset([\n')
+    fh.write('"""Functions (all feature configurations) that existed when the rule tables were reviewed. A private function\nthat is *not* listed here is a helper introduced later: rules/inline.py inlines it into its callers before any\nrule runs. FINGERPRINTS (per configuration: name -> hash of the name-free body profile) only serve to recognise a\nprivate function or type that was merely renamed (rules/rename.py). Regenerate with tools/gen_known_fns.py only\ntogether with a review of the tables."""\n\nKNOWN_FNS = frozenset([\n')
     for n in sorted(names):
         fh.write("    %r,\n" % n)
-    fh.write("])\n")
+    fh.write("])\n\nFINGERPRINTS = {\n")
+    for c in sorted(fps):
+        fh.write("    %r: {\n" % c)
+        for n in sorted(fps[c]):
+            fh.write("        %r: %r,\n" % (n, fps[c][n]))
+        fh.write("    },\n")
+    fh.write("}\n")
 print(len(names), "functions")
